@@ -251,6 +251,7 @@ def run(ctx: Ctx):
     # ---- S8 statistics: an 'unknown' marker in a per-class table is absorbing ---------------------------------------
     _sticky_sentinels(ctx)
     _report_counts_what_validation_accepts(ctx)
+    _write_back_source(ctx)
     plumbing(ctx, "S7")
     return dict(
         explanation=(
@@ -611,6 +612,32 @@ def _report_counts_what_validation_accepts(ctx: Ctx):
            f"validation rejects a bounded token only under `{rej[0]}` but the report counts it only under `{acc[0]}`: a valid "
            f"{'empty segment (start == end)' if want == 'end>=start' else 'segment'} makes rcount_<i> -1 ('boundaries unknown') "
            f"although every boundary is given", rel, f.line, sample=dict(validator_rejects=rej[0], report_counts=acc[0]))
+
+
+def _write_back_source(ctx: Ctx):
+    """S10: a repair rewrites a stored file. What is written must be the stored tensor (plus the repair), i.e. derive from a
+    raw load of that file - not from the data set's *view* of the utterance (`get_utterance_tuple`), which inserts sos/eos,
+    drops boundary columns under tokens_only, applies deltas / normalisation and changes arity with the suppress_* options."""
+    from sa.defuse import ReachingDefs
+    col, pkg = ctx.col, ctx.pkg
+    f = pkg.func("_datasets::_info_and_validate")
+    rel = f.module.relname
+    rd = ReachingDefs(f.node)
+    saves = [c for c in own_calls(f.node) if call_name(c) == "torch.save" and c.args]
+    if len(saves) < 3:
+        raise AnalysisError("C12: fewer than three write-back sites in _info_and_validate")
+    via_view = []
+    for c in saves:
+        der = rd.derives(c.args[0])
+        names = [call_name(x) for x in der.calls()]
+        if any(n.endswith("get_utterance_tuple") or n.endswith("__getitem__") for n in names) and not any(n == "torch.load" for n in names):
+            via_view.append(c)
+    col.ob("G10", "S10", f"{rel}::_info_and_validate::write-back-source-is-the-stored-tensor", not via_view,
+           f"{len(via_view)} of {len(saves)} write-backs save a tensor obtained through `data_set.get_utterance_tuple(idx)` (the "
+           f"data set's view), e.g. `{u(via_view[0])[:70] if via_view else ''}`: with sos/eos set the repair writes the inserted "
+           f"symbols into the file (twice on the next repair), with tokens_only it deletes the boundary columns, and view options "
+           f"that change the tuple's arity make a valid directory fail validation", rel, via_view[0].lineno if via_view else f.line,
+           sample=[u(c)[:70] for c in saves])
 
 
 def _mutants():
